@@ -121,6 +121,40 @@ pub static BLOCKED: AtomicBool = AtomicBool::new(false);
 /// collection (see `block_for_gc`).
 pub static REQUEST_BASE: AtomicU64 = AtomicU64::new(0);
 
+/// Hook (baton scenarios): how GC worker threads are created.  Receives the worker ordinal and the
+/// thread body; must run the body on a new OS thread and return its join handle.  Unset = a plain
+/// `std::thread`.
+#[allow(clippy::type_complexity)]
+pub static GC_THREAD_SPAWNER: OnceLock<Box<dyn Fn(usize, Box<dyn FnOnce() + Send + 'static>) -> std::thread::JoinHandle<()> + Send + Sync>> = OnceLock::new();
+
+/// Hook (baton scenarios): called at the beginning of the named upcall on the thread that makes it
+/// ("stopped", "vm_roots", "weak_refs", "post_forwarding", "resume"); the argument is the
+/// worker's tls value.
+pub static UPCALL_HOOK: OnceLock<Box<dyn Fn(&'static str, usize) + Send + Sync>> = OnceLock::new();
+
+fn upcall_hook(name: &'static str, tls: usize) {
+    if let Some(h) = UPCALL_HOOK.get() {
+        h(name, tls);
+    }
+}
+
+// Logical synchronisation objects of the binding when the calling thread is scheduled by a baton
+// instance (their addresses are the identities): the mutex guarding "the mutator is blocked" /
+// "a collection finished", and the two condition variables.
+static BATON_GC_MUTEX: u8 = 0;
+static BATON_GC_DONE_CV: u8 = 0;
+static BATON_BLOCKED_CV: u8 = 0;
+
+fn baton_ids() -> (usize, usize, usize) {
+    (&BATON_GC_MUTEX as *const u8 as usize, &BATON_GC_DONE_CV as *const u8 as usize, &BATON_BLOCKED_CV as *const u8 as usize)
+}
+
+/// Whether the calling thread is scheduled by a baton instance that models mutexes and condition
+/// variables: the binding's own waits must then be logical, too.
+fn under_baton() -> bool {
+    crate::baton::is_registered() && mmtk::util::verif::rt::controls(mmtk::util::verif::rt::Class::Sync)
+}
+
 /// Call before any MMTk call that may request a collection.
 pub fn note_request_base() {
     let c = with_state(|s| s.gc_count);
@@ -432,6 +466,16 @@ impl Collection<VerifVM> for VerifVM {
         // world is stopped once the harness thread has arrived there (a collection must not run
         // while the requesting mutator is still between the poll and `block_for_gc`, e.g. with a
         // page reservation pending in `Space::acquire`).
+        if under_baton() {
+            // wait logically until the mutator thread sits in block_for_gc
+            use mmtk::util::verif::rt;
+            let (m, _, blocked_cv) = baton_ids();
+            rt::lock_acquire(m, rt::LockMode::Mutex);
+            while !BLOCKED.load(Ordering::SeqCst) {
+                rt::cond_wait(blocked_cv, m);
+            }
+            rt::lock_release(m, rt::LockMode::Mutex);
+        }
         let t0 = std::time::Instant::now();
         while !BLOCKED.load(Ordering::SeqCst) {
             std::thread::yield_now();
@@ -441,6 +485,7 @@ impl Collection<VerifVM> for VerifVM {
             }
         }
         log_event(VmEvent::StopAllMutators);
+        upcall_hook("stopped", tls_value(_tls.0));
         let ms: Vec<(usize, *mut Mutator<VerifVM>)> = with_state(|s| {
             s.gc_active = true;
             s.mutators.iter().map(|m| (m.tls, m.mutator)).collect()
@@ -452,16 +497,51 @@ impl Collection<VerifVM> for VerifVM {
     }
 
     fn resume_mutators(_tls: VMWorkerThread) {
+        upcall_hook("resume", tls_value(_tls.0));
+        let baton = under_baton();
+        if baton {
+            use mmtk::util::verif::rt;
+            rt::lock_acquire(baton_ids().0, rt::LockMode::Mutex);
+        }
         with_state(|s| {
             s.events.push(VmEvent::ResumeMutators);
             s.gc_active = false;
             s.gc_count += 1;
         });
         GC_CV.notify_all();
+        if baton {
+            use mmtk::util::verif::rt;
+            let (m, done_cv, _) = baton_ids();
+            rt::lock_release(m, rt::LockMode::Mutex);
+            rt::cond_notify(done_cv, true);
+        }
     }
 
     fn block_for_gc(tls: VMMutatorThread) {
         let v = tls_value(tls.0);
+        if under_baton() {
+            // the same protocol with logical waiting (a really blocked controller would stop the
+            // whole instance)
+            use mmtk::util::verif::rt;
+            let (m, done_cv, blocked_cv) = baton_ids();
+            rt::lock_acquire(m, rt::LockMode::Mutex);
+            let start_count = with_state(|s| {
+                s.events.push(VmEvent::BlockForGcEnter(v));
+                REQUEST_BASE.load(Ordering::SeqCst)
+            });
+            BLOCKED.store(true, Ordering::SeqCst);
+            rt::cond_notify(blocked_cv, true);
+            while !with_state(|s| s.gc_count > start_count && !s.gc_active) {
+                rt::cond_wait(done_cv, m);
+            }
+            BLOCKED.store(false, Ordering::SeqCst);
+            with_state(|s| {
+                REQUEST_BASE.store(s.gc_count, Ordering::SeqCst);
+                s.events.push(VmEvent::BlockForGcExit(v));
+            });
+            rt::lock_release(m, rt::LockMode::Mutex);
+            return;
+        }
         let mut g = STATE.lock().unwrap_or_else(|p| p.into_inner());
         // The collection this call waits for may already have finished by the time the mutator
         // gets here (workers are woken by the request itself), so the baseline is the count
@@ -498,6 +578,16 @@ impl Collection<VerifVM> for VerifVM {
         match ctx {
             GCThreadContext::Worker(w) => {
                 let ordinal = w.ordinal;
+                if let Some(spawner) = GC_THREAD_SPAWNER.get() {
+                    let h = spawner(
+                        ordinal,
+                        Box::new(move || {
+                            mmtk::memory_manager::start_worker::<VerifVM>(mmtk(), worker_tls(ordinal), w);
+                        }),
+                    );
+                    with_state(|s| s.worker_threads.push(h));
+                    return;
+                }
                 let h = std::thread::Builder::new()
                     .name(format!("gcworker-{}", ordinal))
                     .spawn(move || {
@@ -519,6 +609,7 @@ impl Collection<VerifVM> for VerifVM {
     }
 
     fn post_forwarding(_tls: VMWorkerThread) {
+        upcall_hook("post_forwarding", tls_value(_tls.0));
         log_event(VmEvent::PostForwarding);
     }
 
@@ -559,6 +650,7 @@ impl Scanning<VerifVM> for VerifVM {
     }
 
     fn scan_vm_specific_roots(_tls: VMWorkerThread, mut factory: impl RootsWorkFactory<Address>) {
+        upcall_hook("vm_roots", tls_value(_tls.0));
         let slots = with_state(|s| {
             s.events.push(VmEvent::ScanVmRoots);
             let base = Address::from_mut_ptr(s.global_roots as *mut usize);
@@ -574,6 +666,7 @@ impl Scanning<VerifVM> for VerifVM {
     fn prepare_for_roots_re_scanning() {}
 
     fn process_weak_refs(worker: &mut mmtk::scheduler::GCWorker<VerifVM>, tracer_context: impl ObjectTracerContext<VerifVM>) -> bool {
+        upcall_hook("weak_refs", tls_value(worker.tls.0));
         // Ephemeron semantics: a value is retained iff its key is reachable.  One round retains
         // the values of all entries whose key is currently reachable and that were not retained
         // before; if any value was newly retained another round is needed (it may have made more
